@@ -949,6 +949,8 @@ impl Log {
 					try_io!(file.sync_data());
 					log::debug!(target: "parity-db", "Flush: Flushing log completed");
 				}
+				#[cfg(parity_db_verif)]
+				crate::verif::yield_point(crate::verif::SITE_FLUSH_SYNCED);
 				self.read_queue.write().push_back((to_flush.id, file));
 			}
 			return Ok(true)
@@ -1034,6 +1036,24 @@ impl Log {
 
 	pub fn overlays(&self) -> &RwLock<LogOverlays> {
 		&self.overlays
+	}
+
+	#[cfg(parity_db_verif)]
+	#[allow(clippy::type_complexity)]
+	pub fn verif_status(
+		&self,
+	) -> (u64, Option<(u32, u64)>, usize, Option<u32>, usize, usize, usize, usize, usize) {
+		let next_record_id = self.next_record_id.load(Ordering::SeqCst);
+		let appending = self.appending.read().as_ref().map(|a| (a.id, a.size));
+		let read_queue_len = self.read_queue.read().len();
+		let reading = self.reading.try_read().and_then(|r| r.as_ref().map(|r| r.id));
+		let dirty = self.cleanup_queue.read().len();
+		let pool = self.log_pool.read().len();
+		let o = self.overlays.read();
+		let oi = o.index.iter().map(|m| m.map.len()).sum();
+		let ov = o.value.iter().map(|m| m.map.len()).sum();
+		let orc = o.ref_count.iter().map(|m| m.map.len()).sum();
+		(next_record_id, appending, read_queue_len, reading, dirty, pool, oi, ov, orc)
 	}
 
 	pub fn has_log_files_to_read(&self) -> bool {
